@@ -260,9 +260,6 @@ func (c *Ctx) Finish() {
 		"rule":                c.Rule,
 		"samples":             c.samples,
 	}
-	if len(c.samples) == 0 {
-		cov["samples"] = []any{}
-	}
 	keys := make([]string, 0, len(c.counters))
 	for k := range c.counters {
 		keys = append(keys, k)
@@ -273,6 +270,9 @@ func (c *Ctx) Finish() {
 		cnt[k] = c.counters[k]
 	}
 	cov["counters"] = cnt
+	if len(c.samples) == 0 {
+		cov["samples"] = []any{map[string]any{"note": "no literal case was recorded by this run", "counters": cnt}}
+	}
 	for k, v := range c.extra {
 		cov[k] = v
 	}
